@@ -808,6 +808,7 @@ static void run_config(int b, int r, int o, int depth, int core, int noai)
 	}
 	snprintf(cfg_name, sizeof(cfg_name), "buf%d/start=(%d,%d)%s", b, r, o, core ? "/core" : "");
 	nx_bound = depth;
+	snprintf(nx_cfg_args, sizeof(nx_cfg_args), "cfg=%d,%d,%d core=%d", b, r, o, core);
 	nvx_feed(setup, -1);
 	nx_run(3, argv);
 	nvx_pend_pos = nvx_pend_len = 0;
